@@ -977,6 +977,15 @@ class Evaluator:
         op = BINOPS.get(type(e.op), "?")
         if op == "+" and a[0] in ("tuple", "list") and b[0] == a[0]:
             return (a[0], a[1] + b[1])
+        # (x,) + tuple(ys)  ==  (x, *ys)   and   tuple(xs) + (y,)  ==  (*xs, y)
+        def as_splat(t):
+            if t[0] == "call" and t[1] == ("name", "builtins.tuple") and len(t[2]) == 1 and not t[3]:
+                return ("tuple", (("star", t[2][0]),))
+            return t
+        if op == "+" and (a[0] == "tuple" or b[0] == "tuple"):
+            a2, b2 = as_splat(a), as_splat(b)
+            if a2[0] == "tuple" and b2[0] == "tuple":
+                return ("tuple", a2[1] + b2[1])
         if op == "*" and a[0] == "tuple" and b[0] == "const" and isinstance(b[1], int) and 0 <= b[1] <= 8:
             return ("tuple", a[1] * b[1])
         if a[0] == "const" and b[0] == "const" and isinstance(a[1], (int, float)) and isinstance(b[1], (int, float)) and not isinstance(a[1], bool) and not isinstance(b[1], bool):
